@@ -463,6 +463,14 @@ func TestConcurrentExecutionIsRaceFree(t *testing.T) {
 
 	dummy := []string{}
 
+	var authnRefs []ruleRef
+
+	for _, r := range refs {
+		if tab[r.Mech].Category == "authenticator" {
+			authnRefs = append(authnRefs, r)
+		}
+	}
+
 	for g := 0; g < 12; g++ {
 		wg.Add(1)
 
@@ -472,9 +480,11 @@ func TestConcurrentExecutionIsRaceFree(t *testing.T) {
 			for i := g; !stop.Load(); i++ {
 				r := refs[(i*7+g)%len(refs)]
 
-				if g >= 10 {
-					// two of the goroutines come without the credentials / headers the mechanisms look for: executions which
+				if g >= 8 {
+					// four of the goroutines come without the credentials / headers the mechanisms look for: executions which
 					// fail are executions as well (what they leave behind is the race detector's business)
+					// (of authenticators, where a request without credentials is what fails)
+					r = authnRefs[(i*7+g)%len(authnRefs)]
 					_, _ = w.Send(vkit.EntryDecision, vkit.LogicalRequest{Method: "GET", Host: "svc.example.com", RawPath: r.path()}, nil)
 					failing.Add(1)
 
